@@ -43,7 +43,10 @@ impl Violation {
 		}
 	}
 	pub fn key(&self) -> String {
-		format!("{}|{}|{}|{}", self.property, self.kind, self.cause, self.phase)
+		format!(
+			"{}|{}|{}|{}",
+			self.property, self.kind, self.cause, self.phase
+		)
 	}
 }
 
@@ -71,7 +74,13 @@ pub fn check(prop: &str, r: &RunResult) -> Report {
 	if let Some(p) = &r.panic {
 		// a panic is a C07 matter (the shipped profile aborts); every other monitor ignores the run
 		if prop == "C07" || prop == "C12" {
-			rep.add(Violation::new(prop, "panic", &common::panic_site(p), "", p.clone()));
+			rep.add(Violation::new(
+				prop,
+				"panic",
+				&common::panic_site(p),
+				"",
+				p.clone(),
+			));
 		}
 	}
 	match prop {
